@@ -21,6 +21,7 @@ type Event struct {
 	Site  ssa.Instruction
 	Cond  smt.Term // extra condition under which the event happened (true)
 	Names []string // callee parameter names aligned with Args (may be empty)
+	Rets  []Value  // results, when known (contract calls, dyncalls)
 }
 
 // State is one symbolic path state.
@@ -153,6 +154,7 @@ type Obligation struct {
 	Cover bool // expectation is "sat" (reachability), not "unsat"
 	Canary bool
 	Model []string // terms whose values are of interest in a counterexample
+	ModelTerms []ModelTerm // path-specific terms (let macros, results) to print from a counterexample
 }
 
 // heapKey describes one heap array.
@@ -272,6 +274,7 @@ func (e *Engine) assumeValid(st *State, v Value) {
 			}
 		case l.Sort == smt.Str:
 			n := e.strLen(t)
+			st.assume(smt.Eq(smt.Eq(n, smt.BVLit(0, 64)), smt.Eq(t, e.strLit(""))))
 			st.assume(smt.And(smt.BVCmp("bvsge", n, smt.BVLit(0, 64)), smt.BVCmp("bvsle", n, smt.BVLit(1<<56, 64))))
 		}
 		if len(l.Path) >= 4 && l.Path[len(l.Path)-4:] == ".arr" && i+3 < len(ls) && ls[i+3].Path == l.Path[:len(l.Path)-4]+".cap" {
